@@ -30,7 +30,17 @@ pub(super) fn execute_skip<'a, S: GraphSnapshot + 'a>(
         Err(err) => return PlanIterator::Dynamic(Box::new(std::iter::once(Err(err)))),
     };
     let input_iter = execute_plan(snapshot, input, params);
-    PlanIterator::Dynamic(Box::new(input_iter.skip(skip)))
+    // Only rows are skipped. A failing item is the query's error and must reach the
+    // caller even when it falls inside the skipped prefix.
+    let mut remaining = skip;
+    PlanIterator::Dynamic(Box::new(input_iter.filter(move |item| match item {
+        Err(_) => true,
+        Ok(_) if remaining > 0 => {
+            remaining -= 1;
+            false
+        }
+        Ok(_) => true,
+    })))
 }
 
 pub(super) fn execute_limit<'a, S: GraphSnapshot + 'a>(
